@@ -9,9 +9,13 @@ RULE = ('getrandom() replaced at link time by a scripted tape (byte j of call i 
         'the same result as an uninterrupted one; (2) one byte of a delivered entropy block or of a fed buffer is changed -> every '
         'later fetch of >= 8 bytes and the final state must differ, everything earlier must not; (3) after init and after every '
         'operation the 40 canonical state bytes go through the reference INVERSE permutation and the rate must be zero; (4) a '
-        'fetch that starts with >= 16384 bytes produced since the last reseed must call the source; init/reseed/ascon_random '
-        'status == health of the source call they made; save/load status as documented in random.h; load re-saves a different '
-        'seed; all 2^k failure subsets for histories with k <= 8 source calls; distinct = (build, op, size, storage modes) and '
+        'non-empty fetch that starts with >= 16384 bytes handed out since the last source call must call the source before any '
+        'byte of it is produced (the interposer records where in the fetch buffer each call happens; early and mid-fetch reseeds '
+        'are allowed and counted); init/reseed/ascon_random make at least one source call and their status is non-zero iff ALL '
+        'source calls they made succeeded (number and size of the calls are not constrained; a delivered block is only perturbed '
+        'when all calls of its operation succeeded); save/load status exactly as documented in random.h (0 / -1); whether load '
+        're-saves a fresh seed or draws from the source is recorded, not judged; all 2^k failure subsets for histories with '
+        'k <= 8 source calls; distinct = (build, op, size, storage modes) and '
         '(build, history shape, fault kind)')
 ASSUME = ['no output model of the PRNG is imposed (the property fixes structure, not a function)',
           'equality by chance of two >= 8-byte outputs (2^-64) is ignored']
